@@ -16,7 +16,7 @@ pub const L_POLL: u64 = 4096;
 pub const L_AFTER: u64 = 256;
 pub const HARD: u64 = 2_000_000;
 
-pub const RULE: &str = "valid positions: the C05 mixture, the general mixture (full middlegames) and explosive shapes (rows of pawns one step from promotion on both sides, several queens, long checking sequences), depth 1..5 (or 64 as with a clock-only go), x optional earlier searches without deadline on the same engine (same or neighbouring position, depth 1..4) x expiry point k (node-count deadline through the SearchTimer hook: at node k the timer's own limit becomes zero, the engine's real deadline test decides): k log-uniform in 1..300k (thorough 3M), and ALL k in 1..T-1 for small searches. Oracle on instrumentation counters after find_best_move returns: first poll that sees the expired budget comes <= 4096 nodes after expiry; <= 256 further nodes are expanded after that observation; the search returns at all (hard cap k+2M nodes turns 'never stops' into a caught panic). Non-trivial = the deadline fell inside the search (a poll returned true before the search would have finished); distinct by (FEN, depth, k). Black-box layer (real binary, real clock): go movetime T / a clock with T left / depth 64 movetime T, T in 0..300 ms (one case in seven 700..1500 ms), on explosive, middlegame and game positions, optionally after an earlier depth-limited search in the same process (half of them with a generous move time or clock of their own, which they do not use up); CPU time consumed between go and bestmove <= T + 300 ms (non-trivial = the last completed iteration is below depth 64, i.e. the clock ended the search).";
+pub const RULE: &str = "valid positions: the C05 mixture, the general mixture (full middlegames) and explosive shapes (rows of pawns one step from promotion on both sides, several queens, long checking sequences), depth 1..5 (or 64 as with a clock-only go), x optional earlier searches on the same engine (same or neighbouring position, depth 1..4, without deadline or themselves cut off by a small deadline; 3 %: a middlegame search of up to 1.4 M nodes ended by its own deadline) x expiry point k (node-count deadline through the SearchTimer hook: at node k the timer's own limit becomes zero, the engine's real deadline test decides): k log-uniform in 1..300k (thorough 3M), and ALL k in 1..T-1 for small searches. Oracle on instrumentation counters after find_best_move returns: first poll that sees the expired budget comes <= 4096 nodes after expiry; <= 256 further nodes are expanded after that observation; the search returns at all (hard cap k+2M nodes turns 'never stops' into a caught panic). Non-trivial = the deadline fell inside the search (a poll returned true before the search would have finished); distinct by (FEN, depth, k). Black-box layer (real binary, real clock): go movetime T / a clock with T left / depth 64 movetime T, T in 0..300 ms (one case in seven 700..1500 ms), on explosive, middlegame and game positions, optionally after an earlier depth-limited search in the same process (half of them with a generous move time or clock of their own, which they do not use up); CPU time consumed between go and bestmove <= T + 300 ms (non-trivial = the last completed iteration is below depth 64, i.e. the clock ended the search).";
 
 thread_local! {
     static KMAX: Cell<u64> = Cell::new(300_000);
@@ -28,14 +28,16 @@ pub fn judge(p: &Pos, d: u8, k: u64, stats: &mut Stats, gen_kind: &str) -> Verdi
 
 /// `earlier`: searches without any deadline run on the same engine before the one under test
 /// ("at every point of the search" includes searches that are not the first of their process).
-pub fn judge_after(earlier: &[(Pos, u8)], p: &Pos, d: u8, k: u64, stats: &mut Stats, gen_kind: &str) -> Verdict {
+pub fn judge_after(earlier: &[(Pos, u8, Option<u64>)], p: &Pos, d: u8, k: u64, stats: &mut Stats, gen_kind: &str) -> Verdict {
     let b = eng::to_board(p);
     let fen = eng::fen(&p);
     let mut searcher = Searcher::new();
     let mut earlier_nodes: Vec<u64> = Vec::new();
-    for (q, dq) in earlier {
-        searcher.verif_set_node_limit(None);
-        searcher.verif_set_hard_cap(Some(400_000));
+    for (q, dq, dl) in earlier {
+        // an earlier search: without a deadline (node watchdog 400 000), or itself ended by a node
+        // deadline (a search cut off earlier, small or of a million nodes and more)
+        searcher.verif_set_node_limit(*dl);
+        searcher.verif_set_hard_cap(Some(dl.map(|x| x + HARD).unwrap_or(400_000)));
         let bq = eng::to_board(q);
         if std::panic::catch_unwind(std::panic::AssertUnwindSafe(|| searcher.find_best_move(&bq, *dq, None))).is_err() {
             stats.exclude("earlier unlimited search over the node watchdog");
@@ -43,7 +45,7 @@ pub fn judge_after(earlier: &[(Pos, u8)], p: &Pos, d: u8, k: u64, stats: &mut St
         }
         earlier_nodes.push(searcher.verif_nodes());
     }
-    let earlier_desc: Vec<Value> = earlier.iter().zip(earlier_nodes.iter()).map(|((q, dq), n)| json!({"fen": eng::fen(&q), "depth": dq, "nodes": n})).collect();
+    let earlier_desc: Vec<Value> = earlier.iter().zip(earlier_nodes.iter()).map(|((q, dq, dl), n)| json!({"fen": eng::fen(&q), "depth": dq, "node_deadline": dl, "nodes": n})).collect();
     searcher.verif_set_node_limit(Some(k));
     searcher.verif_set_hard_cap(Some(k + HARD));
     let r = std::panic::catch_unwind(std::panic::AssertUnwindSafe(|| searcher.find_best_move(&b, d, None)));
@@ -112,7 +114,21 @@ fn part_sampled(bytes: &[u8], stats: &mut Stats) -> Verdict {
     let e = s.below(bits);
     let k = ((1u64 << e) + (s.u32() as u64 % (1u64 << e))).min(kmax).max(1);
     // 40%: one or two earlier searches (no deadline) of the same or a neighbouring position
-    let mut earlier: Vec<(Pos, u8)> = Vec::new();
+    let mut earlier: Vec<(Pos, u8, Option<u64>)> = Vec::new();
+    // 3%: an engine that has just searched a million nodes and more of a middlegame (ended by its own
+    // deadline) — counters and schedules that depend on how much was searched before
+    if s.chance(3) {
+        let mut hp = Pos::startpos();
+        for _ in 0..s.below(7) {
+            let legal = hp.legal_moves();
+            match gen::choose_move(&mut s, &hp, &legal) {
+                Some(m) if !hp.make(m).legal_moves().is_empty() => hp = hp.make(m),
+                _ => break,
+            }
+        }
+        earlier.push((hp, 12, Some(*s.pick(&[70_000u64, 300_000, 1_100_000, 1_400_000]))));
+        stats.class("after_an_earlier_search_of_up_to_1.4M_nodes_ended_by_its_own_deadline");
+    }
     if s.chance(40) {
         for _ in 0..1 + s.below(2) {
             let q = if s.bool() {
@@ -124,7 +140,9 @@ fn part_sampled(bytes: &[u8], stats: &mut Stats) -> Verdict {
                     _ => p.clone(),
                 }
             };
-            earlier.push((q, 1 + s.below(4) as u8));
+            // one in four of them is itself cut off by a small deadline
+            let dl = if s.chance(25) { Some(1 + s.below(3000) as u64) } else { None };
+            earlier.push((q, 1 + s.below(4) as u8, dl));
         }
     }
     judge_after(&earlier, &p, d, k, stats, kind)
@@ -349,12 +367,12 @@ pub fn replay(part: &str, bytes: &[u8], case: &Value, stats: &mut Stats) -> Verd
     // structural replay of an in-process case: (earlier searches, FEN, depth, deadline)
     if let (Some(fen), Some(d), Some(k)) = (case.get("fen").and_then(|x| x.as_str()), case.get("depth").and_then(|x| x.as_u64()), case.get("deadline_nodes").and_then(|x| x.as_u64())) {
         if let Some(p) = eng::pos_from_saved_fen(fen) {
-            let mut earlier: Vec<(Pos, u8)> = Vec::new();
+            let mut earlier: Vec<(Pos, u8, Option<u64>)> = Vec::new();
             if let Some(a) = case.get("earlier_searches_on_this_engine").and_then(|x| x.as_array()) {
                 for e in a {
                     if let (Some(f), Some(dq)) = (e.get("fen").and_then(|x| x.as_str()), e.get("depth").and_then(|x| x.as_u64())) {
                         if let Ok((q, _, _)) = Pos::from_fen(f) {
-                            earlier.push((q, dq as u8));
+                            earlier.push((q, dq as u8, e.get("node_deadline").and_then(|x| x.as_u64())));
                         }
                     }
                 }
